@@ -48,7 +48,7 @@ func (m *verifRWMutex) RUnlock() { m.Unlock() }
 
 type failPlan struct {
 	after time.Duration
-	kind  int // 0 error, 1 nil return, 2 panic
+	kind  int // 0 error, 1 nil return, 2 panic, 3 illegal signal, 4 panic while winding down, 5 gives up after RunGroup refused a taken name
 }
 
 type svcSpec struct {
@@ -179,7 +179,7 @@ func (w *supWorld) runnable(spec *svcSpec, parent func() *incarnation) Runnable 
 		fail := func() error {
 			w.mu.Lock()
 			inc.failed, inc.failedAt, inc.failKind = true, w.now(), plan.kind
-			w.stats.Fault([]string{"service-returns-error", "service-returns-nil", "service-panics", "service-signals-illegally"}[plan.kind])
+			w.stats.Fault([]string{"service-returns-error", "service-returns-nil", "service-panics", "service-signals-illegally", "", "service-registers-a-taken-name"}[plan.kind])
 			w.ev("fail %s #%d kind=%d", spec.dn, inc.n, plan.kind)
 			w.mu.Unlock()
 			switch plan.kind {
@@ -192,6 +192,28 @@ func (w *supWorld) runnable(spec *svcSpec, parent func() *incarnation) Runnable 
 				Signal(ctx, SignalHealthy)
 				Signal(ctx, SignalHealthy)
 				return errors.New("unreachable")
+			case 5:
+				// a batch of workers of which one has a name that is already taken: RunGroup refuses,
+				// the service gives up with that error - a failure like any other
+				idle := func(ctx context.Context) error {
+					Signal(ctx, SignalHealthy)
+					<-ctx.Done()
+					return ctx.Err()
+				}
+				taken := "dupx"
+				if len(spec.children) > 0 {
+					taken = spec.children[0].name
+				} else if err := Run(ctx, taken, idle); err != nil {
+					return fmt.Errorf("starting a worker: %w", err)
+				}
+				err := RunGroup(ctx, map[string]Runnable{taken: idle, "fresh1": idle, "fresh2": idle, "fresh3": idle})
+				if err == nil {
+					w.mu.Lock()
+					w.stats.Probe("taken-name-accepted")
+					w.mu.Unlock()
+					return errors.New("scripted failure")
+				}
+				return fmt.Errorf("starting workers: %w", err)
 			default:
 				panic("scripted panic")
 			}
@@ -505,8 +527,8 @@ func (supHarness) Gen(seed uint64, prop, tier string) *simkit.Program {
 		if r.P(0.07) {
 			dn = "root"
 		}
-		kind := int64(r.Pick(4, 3, 3, 2, 2))
-		if p.Cfg["propagate"] == 1 && kind >= 2 {
+		kind := int64(r.Pick(4, 3, 3, 2, 2, 2))
+		if p.Cfg["propagate"] == 1 && kind >= 2 && kind != 5 {
 			kind = 0
 		}
 		after := nextPrime() * int64(r.Range(1, 400)) // up to ~40 s
@@ -565,11 +587,11 @@ func (h supHarness) Exec(p *simkit.Program) *simkit.Result {
 		if after <= 0 {
 			after = time.Microsecond
 		}
-		kind := int(st.C) % 5
+		kind := int(st.C) % 6
 		if kind < 0 {
 			kind = 0
 		}
-		if p.C("propagate", 0) == 1 && kind >= 2 {
+		if p.C("propagate", 0) == 1 && kind >= 2 && kind != 5 {
 			kind = 0
 		}
 		s.fails[int(st.A)%8] = failPlan{after, kind}
